@@ -1509,6 +1509,8 @@ main(int argc, char ** argv)
 			s = (int)i;
 	if (s < 0)
 		vh_die("unknown scenario %s", argv[1]);
+	/* a process may run with stdin closed: the first socket is then descriptor 0 */
+	close(0);
 	seed = strtoull(argv[2], NULL, 0);
 	snprintf(errpath, sizeof(errpath), "%s/c14-%s-%llu.err", argv[3], argv[1], (unsigned long long)seed);
 	if (argc >= 6) {
